@@ -3,7 +3,7 @@
   `handle_message_with_context` as a whole, *given* that the QUERY handler is safe (`QuerySafe`,
   proved in QV.Proofs.ServerQuery).
 -/
-import QV.Proofs.ServerTsig
+import QV.Proofs.ServerTsigSafe
 
 namespace QV.ServerSafety
 open QV QV.Writer QV.Server QV.Reader QV.Wire
